@@ -265,6 +265,15 @@ def array_task(kind, deriv, dtype='float64', quantities=('isna', 'bounds', 'tota
         want = None if expect_ids[j] is None else src_tags_before[expect_ids[j]]
         if got_tags[j] != want:
             findings.append(('elements', f'[{j}]', 'mismatch', f'got {got_tags[j]} expected {want}'))
+    # scalar access with the negative positions -n..-1 gives the same elements
+    for j in range(n):
+        try:
+            tneg = T.element_tags(kind, arr[j - n])
+        except Exception as e:  # noqa: BLE001
+            findings.append(('elements', f'[{j - n}]', 'raises', f'{type(e).__name__}: {str(e)[:100]}'))
+            continue
+        if tneg != got_tags[j]:
+            findings.append(('elements', f'[{j - n}]', 'mismatch', f'got {tneg} expected {got_tags[j]}'))
     syms = [T.symbolic_element(ts, kind, tg) for tg in got_tags]
     box = tuple(Num(z3.Int(nm)) for nm in ('bx0', 'by0', 'bx1', 'by1'))
     bvars = [b.v for b in box]
@@ -652,10 +661,20 @@ def replay_finding(kind, specs, deriv, dtype, finding):
     if quantity == 'elements' or quantity == 'source':
         # tag identity is concrete: re-derive and compare with the reference selection
         ids = DERIVS[deriv][1](list(range(len(src))))
-        got = [None if arr[j] is None else arr[j].data.as_py() for j in range(len(arr))]
-        want = [None if (i is None or src[i] is None) else src[i].data.as_py() for i in ids]
+        def py(e):
+            return None if e is None else (e.data.as_py() if kind != 'point' else [float(c) for c in e.flat_values])
+        got = [py(arr[j]) for j in range(len(arr))]
+        want = [None if (i is None or src[i] is None) else py(src[i]) for i in ids]
         wit.update(got=got, expected=want)
-        return got != want, wit
+        if got != want:
+            return True, wit
+        try:
+            gneg = [py(arr[j - len(arr)]) for j in range(len(arr))]
+        except Exception as e:  # noqa: BLE001
+            wit.update(got=f'scalar access with a negative position raises {type(e).__name__}: {str(e)[:120]}', form='negative positions -n..-1')
+            return True, wit
+        wit.update(got=gneg, form='negative positions -n..-1')
+        return gneg != want, wit
     if problem == 'raises' and model is None and quantity.split('[')[0] == 'intersects_bounds' and str(detail).startswith('OutOfBounds'):
         # the interpreted wrapper indexes outside a buffer on this path whatever the coordinates are; numba does not
         # bounds-check, so the real call returns an answer computed from the wrong memory: demonstrate it with boxes
